@@ -7,6 +7,13 @@ TRUST = ("trusted base: go/types + go/ssa (x/tools v0.50.0), goyacc v0.29.0's LA
          "interface calls that leave the module (Entry, plugins) are opaque")
 
 CHECKS = {
+    "C17": dict(
+        cat="other",
+        text=("Decides that the schema walk cannot accept without checking: every concrete node kind declares its own Validate (method-set query; none inherits the accept-everything (*node).Validate); in each of tree, container, list, list entry, choice, case, leaf and leaf-list the method starts with the empty-path arm, which returns nil only under the condition the property states for that kind (presence / empty type / incomplete paths allowed / never for choice and case), and with tokens remaining it either rejects or ends in a delegating call (child.Validate(ctx, path, p[1:]) or the type's Validate on the value) with no other nil exit; leaf and leaf-list reject tokens after the value; the list's key leaf validates the token after the list name unconditionally and its error is returned; every error constructor renders the walked path with pathutil.Pathstr."),
+        ref="DESIGN.md §4 C17",
+        technique="method-set query + must-pass-through (delegate-or-reject) shape rule per kind, guard extraction on the empty-path arm, call-argument provenance in the error constructors",
+        note="Not decided: which error a concrete path gets; multi-part keys (first key only, documented TODO); vendor opd kinds. " + TRUST,
+    ),
     "C16": dict(
         cat="other",
         text=("Decides the table and shape facts value validation rests on: the signed/unsigned bound tables hold the exact two's-complement bounds for every width (constant arithmetic) and values are parsed base 10 with the type's own width; the string length restriction is applied to a character count, not len(s); decimal64 range boundaries and the tested value are not float64 (a recorded finding today); patterns are compiled as ^(pattern)$; boolean accepts exactly true|false, empty rejects any value, enumeration/identityref accept iff a declared .Val equals the value, union iff some member accepts, each range/length part iff start <= v <= end; every rejection constructor in the Validate methods receives the path; the decimal64 lexical check has no success exit before the four exact comparisons with the 64-bit limits; identityValues lists every derived identity unconditionally."),
